@@ -46,6 +46,11 @@ def gen(run, g, num, seed, steps, policy=False):
     return thin(res.printed, seed, None if run.tier == "thorough" else 6)
 
 
+def tmo(behs):
+    """go test timeout of a directed run: measured 0.05 s per schedule; a run that needs ten times that is hung"""
+    return int(420 + 0.5 * len(behs))
+
+
 def thin(behs, seed, per_prefix):
     """TLC prints one behaviour per successor of the last step of every walk (dozens that differ in the last
     step only). The quick tier keeps at most per_prefix of each such family, chosen by a seeded hash."""
@@ -168,22 +173,22 @@ def run_speaker(run, invs, kf_invs=None, design=design_mech, policy=False, colli
             kcfg = "SpeakerKF_%s_%s.cfg" % (run.prop, g)
             v.write_cfg(run.sc, kcfg, TRACE_CFG % {"g": g, "invs": "\n".join("  " + x for x in kf_invs)})
         if rg in (None, g):
-            traces = run.execute("c01", "pkg/server", "^TestVerifC01$", behs, tag="speaker-" + g, timeout=420)
+            traces = run.execute("c01", "pkg/server", "^TestVerifC01$", behs, tag="speaker-" + g, timeout=tmo(behs))
             run.validate("SpeakerTrace", cfg, traces, behs, known_cfg=kcfg, group=g)
         if pairs and g in pairs and rg in (None, g + "-pairs"):
             pb = [run.replay["behaviour"]] if run.replay else gen_pairs(run, g, pairs[g])
-            traces = run.execute("c01", "pkg/server", "^TestVerifC01$", pb, tag="speaker-%s-pairs" % g, timeout=420)
+            traces = run.execute("c01", "pkg/server", "^TestVerifC01$", pb, tag="speaker-%s-pairs" % g, timeout=tmo(pb))
             run.validate("SpeakerTrace", cfg, traces, pb, known_cfg=kcfg, group=g + "-pairs")
             run.extra["policy_pair_schedules"] = run.extra.get("policy_pair_schedules", 0) + len(pb)
         if quota and g == "addpath" and rg in (None, g + "-quota"):
             qb = [run.replay["behaviour"]] if run.replay else gen_quota(run)
-            traces = run.execute("c01", "pkg/server", "^TestVerifC01$", qb, tag="speaker-addpath-quota", timeout=420)
+            traces = run.execute("c01", "pkg/server", "^TestVerifC01$", qb, tag="speaker-addpath-quota", timeout=tmo(qb))
             run.validate("SpeakerTrace", cfg, traces, qb, known_cfg=kcfg, group=g + "-quota")
             run.extra["quota_schedules"] = run.extra.get("quota_schedules", 0) + len(qb)
         if collide and rg in (None, g + "-collide"):
             # the same schedules with every prefix of a table in ONE hash bucket (hook VerifKeyHook of
             # internal/pkg/table): the collision chains are walked by every insert, delete and lookup
             traces = run.execute("c01", "pkg/server", "^TestVerifC01$", behs, tag="speaker-%s-collide" % g,
-                                 env={"VERIF_COLLIDE": 1}, timeout=420)
+                                 env={"VERIF_COLLIDE": 1}, timeout=tmo(behs))
             run.validate("SpeakerTrace", cfg, traces, behs, known_cfg=kcfg, group=g + "-collide")
             run.extra["collide_traces"] = run.extra.get("collide_traces", 0) + len(traces)
